@@ -156,6 +156,8 @@ func API.decodeMap$1
 -- reflection throughout)
 func API.decodeStructFields
   opt only-ghost-asserts
+  opt check-bounds            -- index, slice and allocation-size obligations of this function are kept: no input-derived number
+                              -- may be used as a bound without a check (C02)
   opt assume-type-asserts
   requires api != nil && deseri != nil && opts != nil
   modifies everything
